@@ -187,6 +187,16 @@ def head_no_writer(ctx, rule):
         n += 1
         has = is_agg(w) and w[3] == "Some"
         v = v ^ r.get("bn_inv", 0)
+        if not v:
+            # no body: the chunk writer half must be dropped as it is. An encoder built around it and dropped writes its header
+            # and trailer into the body on drop, so HEAD's body would no longer be empty
+            G_ = gzip_ctor(ctx)
+            gzc = set(G_["ctors"].get(G_["gz"], ()))
+            enc = [e for e in o.events if e["k"] == "call" and ((e["callee"].get("res_path") or "") in gzc or "GzEncoder" in (e["callee"].get("path") or "") or
+                                                                 "GzBuilder" in (e["callee"].get("path") or ""))]
+            if enc:
+                ctx.violation(rule, rule + "|no-body-encoder", "build() wraps the chunk writer in a gzip encoder although no body is needed and then drops it: the encoder's "
+                              "drop writes the gzip header and trailer, so the body of a HEAD response is not empty", where=where(enc[0]))
         if bool(v) != has:
             ctx.violation(rule, "%s|writer|bn=%d" % (rule, v), "build() returns %s writer when body_needed is %s" % ("a" if has else "no", bool(v)))
         key = frozenset((fmt_term(t), val) for t, val in o.cons.known.items() if t != bnf)
